@@ -286,7 +286,7 @@ def run_loader_layout(ctx, rng, root):
 
 
 def run(ctx):
-    monitors.install(ctx)
+    monitors.install(ctx, tokalg=False)
     import chameleon.template as T
     cooks = {}
     orig_cook = T.BaseTemplate.cook
